@@ -19,7 +19,15 @@ import (
 
 type Rng struct{ s uint64 }
 
-func NewRng(seed uint64) *Rng { return &Rng{s: seed*0x9E3779B97F4A7C15 + 0x1234567} }
+// NewRng mixes the seed through the splitmix64 finaliser: neighbouring seeds must not give shifted copies
+// of one stream (the state advances by a constant, so an unmixed seed k+1 would replay seed k one draw late).
+func NewRng(seed uint64) *Rng {
+	z := seed + 0x9E3779B97F4A7C15
+	z = (z ^ (z >> 30)) * 0xBF58476D1CE4E5B9
+	z = (z ^ (z >> 27)) * 0x94D049BB133111EB
+	z ^= z >> 31
+	return &Rng{s: z ^ 0x6A09E667F3BCC909}
+}
 
 func (r *Rng) Next() uint64 {
 	r.s += 0x9E3779B97F4A7C15
@@ -46,7 +54,7 @@ func (r *Rng) Bool() bool { return r.Next()&1 == 1 }
 func (r *Rng) Chance(num, den int) bool { return r.Intn(den) < num }
 
 // Fork derives an independent generator (so that one case's choices do not shift the next case's).
-func (r *Rng) Fork() *Rng { return &Rng{s: r.Next()} }
+func (r *Rng) Fork() *Rng { return NewRng(r.Next()) }
 
 func (r *Rng) Shuffle(n int, swap func(i, j int)) {
 	for i := n - 1; i > 0; i-- {
